@@ -45,7 +45,7 @@ func (self *ListRange) CheckListPreConstraints(r *ListRequest) (bool, error) {
 	if r.IsNavigation() {
 		return true, nil
 	}
-	if self.Selector.PathMatches(r.Base, r.Selection.Path) {
+	if self.isSelected(r) {
 		if r.First {
 			r.SetStartRow(self.StartRow)
 			r.SetRow(self.StartRow)
@@ -54,4 +54,12 @@ func (self *ListRange) CheckListPreConstraints(r *ListRequest) (bool, error) {
 		}
 	}
 	return true, nil
+}
+
+// isSelected is true for the list the selector names, not for lists nested inside its items
+func (self *ListRange) isSelected(r *ListRequest) bool {
+	if x, ok := self.Selector.(*PathMatchExpression); ok {
+		return x.PathIs(r.Base, r.Selection.Path)
+	}
+	return self.Selector.PathMatches(r.Base, r.Selection.Path)
 }
